@@ -130,6 +130,15 @@ def r1_r2_table(ctx: Context, order: list[str]) -> None:
     rows = 0
     classes: set[str] = set()
     bad: dict[str, dict] = {}
+    # a tolerant comparison (isclose / allclose / approx / rounding before comparing) in a validator whose documented checks are exact: for any
+    # tolerance there are well-formed bounds closer than it (rejected as "same") and inverted ones (reported as "same" instead of "lower > upper")
+    tolerant = [c for c in ast.walk(cb.node) if isinstance(c, ast.Call) and (dotted(c.func) or "").split(".")[-1] in ("isclose", "allclose", "approx", "assert_allclose", "array_equal")
+                and (dotted(c.func) or "").split(".")[-1] != "array_equal"]
+    for c in tolerant:
+        ctx.fail("R1.order", f"SearchSpace._check_bounds:tolerant:{(dotted(c.func) or '').split('.')[-1]}", f"`{src(c)[:80]}` compares the bounds / precisions up to a tolerance, the documented checks are exact: "
+                 "well-formed specifications whose values differ by less than the tolerance (e.g. lower=1e9, upper=1e9+0.5) are rejected, and inverted ones that close are reported as SameLowerAndUpperBoundError", cb, c)
+    if tolerant:
+        return
 
     def one(label: str, bounds: list, prec: list) -> None:
         nonlocal rows
@@ -287,6 +296,20 @@ def r3_grid(ctx: Context) -> None:
         st_forms = {str(n.rat(parse_expr(f"{p_}[{i}]"))) for p_ in P}
         col_names = [t.id for s_ in loop.body if isinstance(s_, (ast.Assign, ast.AnnAssign)) for t in ([s_.target] if isinstance(s_, ast.AnnAssign) else s_.targets) if isinstance(t, ast.Name) and any(x is c for x in ast.walk(s_))]
         col = col_names[0] if col_names else None
+        # the appended column must be the arange result itself: a later re-binding that filters it by an exact comparison with the upper bound
+        # throws away the end point whenever lower + k*step rounds one ulp above the bound - which is what the slack on `stop` exists to keep
+        if col is not None:
+            rebinds = [s_ for s_ in ast.walk(loop) if isinstance(s_, (ast.Assign, ast.AugAssign, ast.AnnAssign)) and not any(x is c for x in ast.walk(s_))
+                       and any(isinstance(t, ast.Name) and t.id == col for t in ([s_.target] if not isinstance(s_, ast.Assign) else s_.targets))]
+            for rb in rebinds:
+                cmp_ = [x for x in ast.walk(rb) if isinstance(x, ast.Compare) and len(x.ops) == 1 and isinstance(x.ops[0], (ast.Lt, ast.LtE, ast.Gt, ast.GtE))
+                        and any(isinstance(y, ast.Name) and y.id == col for y in ast.walk(x))]
+                exact = [x for x in cmp_ if any(str(n.rat(side)) in hi_forms for side in (x.left, x.comparators[0]) if not any(isinstance(y, ast.Name) and y.id == col for y in ast.walk(side)))]
+                if exact:
+                    ctx.fail("R3.columns", "SearchSpace.__init__:column-filtered-by-upper-bound", f"`{src(rb)[:90]}` filters the arange result by an exact comparison with the upper bound: when lower + k*precision "
+                             "rounds one ulp above the bound (e.g. [0, 0.3] step 0.1: 0.30000000000000004) the end point is dropped, although the range is a whole number of steps - grid and space_size lose a point", init, rb)
+                else:
+                    raise AnalysisError(f"{init.loc(rb)}: the grid column `{col}` is re-bound after np.arange (`{src(rb)[:60]}`); cannot decide what is appended to the grid")
         appended = [x for x in ast.walk(loop) if isinstance(x, ast.Call) and isinstance(x.func, ast.Attribute) and x.func.attr == "append" and is_self_attr(x.func.value, init.self_name, "_param_grid")]
         ok = len(appended) == 1 and (src(appended[0].args[0]) == col or any(y is c for y in ast.walk(appended[0])))
         ctx.check(ok, "R3.columns", "SearchSpace.__init__:append", "each column is appended to the grid in parameter order", "the grid column is not appended to _param_grid", init, loop)
